@@ -20,11 +20,11 @@ TABLE = {
   ('C01_iter_from', 'IterP', 'coll_iter_from_spec'), ('C01_tree_get', 'WulP', 'get_rec_canon'),
   ('C01_flush_tree', 'WulP', 'wul_canon'),
   ('C01_flush', 'CollCtorP', 'apply_spec'), ('C01_pop_front', 'CollCtorP', 'pop_front_spec'),
-  ('C01_with_builder_interleaved', 'BuilderSysP', 'interleave_refines'), ('C01_builder_does_not_change_answers', 'BuilderSysP', 'interleave_same_answers'),
+  ('C01_quad_every_configuration_refines', 'QuadP', 'quad_every_configuration_refines'), ('C01_eleven_kinds', 'QuadP', 'every_configuration_refines11'), ('C01_with_builder_interleaved', 'BuilderSysP', 'interleave_refines'), ('C01_builder_does_not_change_answers', 'BuilderSysP', 'interleave_same_answers'),
   ('C01_step_refines', 'Refine', 'step_refines'), ('C01_run_refines', 'Refine', 'run_refines'), ('C01_spec_det', 'Refine', 'spec_det'),
  ],
  'C02': [
-  ('C02_closed_h256', 'Instances', 'root_h256'), ('C02_nested_element_root_is_ssz', 'NestedP', 'mroot_is_merkle'), ('C02_nested_element_root_is_inner_list_root', 'NestedP', 'nl_root_is_inner_list_root'), ('C02_scenario', 'Instances', 'scenario_spec'),
+  ('C02_quad_root_is_container_root', 'QuadP', 'ek_quad_root_container'), ('C02_quad_root_is_not_its_bytes', 'QuadP', 'quad_root_not_bytes'), ('C02_quad_list_root', 'QuadP', 'quad_list_root_spec'), ('C02_closed_h256', 'Instances', 'root_h256'), ('C02_nested_element_root_is_ssz', 'NestedP', 'mroot_is_merkle'), ('C02_nested_element_root_is_inner_list_root', 'NestedP', 'nl_root_is_inner_list_root'), ('C02_scenario', 'Instances', 'scenario_spec'),
   ('C02_canon_merkle', 'HashP', 'shash_canon_merkle'), ('C02_merkleize_pad', 'HashP', 'merkleize_pad'),
   ('C02_depth', 'HashP', 'depth_is_chunk_depth'), ('C02_tree_hash', 'HashP', 'tree_hash_exact'),
   ('C02_root', 'HashP', 'root_is_ssz_hinv'), ('C02_root_run', 'HashP', 'root_is_ssz_run'),
@@ -38,7 +38,7 @@ TABLE = {
   ('C03_root_gok', 'CollObsP', 'coll_root_spec'), ('C03_rebase_gok', 'CollObsP', 'coll_rebase_spec'),
   ('C03_intra_gok', 'CollObsP', 'coll_intra_spec_gok'),
   ('C03_inv', 'Refine', 'step_refines'),
-  ('C03_hash_invisible', 'InvisibleP', 'hash_invisible'), ('C03_hash_invisible_after_decode', 'InvisibleP', 'hash_invisible_decode'), ('C03_silent_ops_invisible', 'InvisibleP', 'silent_ops_invisible'),
+  ('C03_quad_hash_invisible', 'QuadP', 'quad_hash_invisible'), ('C03_hash_invisible', 'InvisibleP', 'hash_invisible'), ('C03_hash_invisible_after_decode', 'InvisibleP', 'hash_invisible_decode'), ('C03_silent_ops_invisible', 'InvisibleP', 'silent_ops_invisible'),
   ('C03_invisible_example', 'InvisibleP', 'invisible_u64'), ('C03_abandoned_hashing_is_harmless', 'FaultP', 'abandoned_hashing_is_harmless'), ('C03_hash_invisible_every_configuration', 'ClosureP', 'hash_invisible_all'),
  ],
  'C04': [
@@ -67,7 +67,7 @@ TABLE = {
   ('C07_state', 'RebaseP', 'rebase_state'), ('C07_coll', 'RebaseP', 'coll_rebase_on_hinv'),
   ('C07_coll_demonic', 'RebaseP', 'coll_rebase_on_dem'), ('C07_gok', 'CollObsP', 'coll_rebase_spec'),
   ('C07_hash_inj', 'HashP', 'shash_canon_inj'), ('C07_refines', 'RefineB', 'refines_ORebaseOn'), ('C07_refines_rebase', 'RefineB', 'refines_ORebase'),
-  ('C07_rebase_invisible', 'InvisibleP', 'rebase_invisible'), ('C07_silent_ops_invisible', 'InvisibleP', 'silent_ops_invisible'), ('C07_rebase_invisible_every_configuration', 'ClosureP', 'rebase_invisible_all'),
+  ('C07_quad_rebase_invisible', 'QuadP', 'quad_rebase_invisible'), ('C07_rebase_invisible', 'InvisibleP', 'rebase_invisible'), ('C07_silent_ops_invisible', 'InvisibleP', 'silent_ops_invisible'), ('C07_rebase_invisible_every_configuration', 'ClosureP', 'rebase_invisible_all'),
  ],
  'C08': [
   ('C08_paths_cf', 'FinalP', 'rebase_sharing_paths_cf'), ('C08_paths_vec_cf', 'FinalP', 'rebase_sharing_paths_vec_cf'), ('C08_coll_paths_cf', 'FinalP', 'sharing_paths_cf'), ('C08_sharing_cf', 'FinalP', 'rebase_sharing_cf'), ('C08_equal_share_all', 'FinalP', 'sharing_equal'), ('C08_fresh_on_differing_paths', 'FinalP', 'fresh_differs'),
@@ -80,7 +80,7 @@ TABLE = {
   ('C09_coll_memo', 'IntraP', 'coll_intra_spec_memo'), ('C09_pinned_refuted', 'IntraP', 'intra_pinned_refuted'),
   ('C09_pinned_not_shape_preserving', 'IntraP', 'intra_pinned_not_shape_preserving'),
   ('C09_fixed_on_witness', 'IntraP', 'intra_fixed_on_witness'), ('C09_gok', 'CollObsP', 'coll_intra_spec_gok'), ('C09_refines', 'RefineB', 'refines_OIntra'),
-  ('C09_intra_is_flush', 'InvisibleP', 'intra_is_flush'), ('C09_silent_ops_invisible', 'InvisibleP', 'silent_ops_invisible'), ('C09_intra_is_flush_every_configuration', 'ClosureP', 'intra_is_flush_all'),
+  ('C09_quad_intra_is_flush', 'QuadP', 'quad_intra_is_flush'), ('C09_intra_is_flush', 'InvisibleP', 'intra_is_flush'), ('C09_silent_ops_invisible', 'InvisibleP', 'silent_ops_invisible'), ('C09_intra_is_flush_every_configuration', 'ClosureP', 'intra_is_flush_all'),
  ],
  'C10': [
   ('C10_rehash_only_new', 'FinalP', 'rehash_only_new'), ('C10_rehash_recomputed', 'FinalP', 'rehash_recomputed'), ('C10_flush_then_hash', 'FinalP', 'flush_rehash_only_new'),
@@ -89,7 +89,7 @@ TABLE = {
   ('C10_repeat_nodes', 'RepeatP', 'repeat_nodes'), ('C10_pop_front_reuse', 'BuilderP', 'feed_canon_idf'),
   ('C10_level_items_shared', 'IterP', 'list_level_iter_from_spec'), ('C10_clone', 'Refine', 'clone_allocates_nothing'),
   ('C10_pop_front', 'CollCtorP', 'pop_front_spec'),
-  ('C10_size_packed', 'ClosureP', 'snodes_canon_packed_le'), ('C10_reachable_node_bound', 'ClosureP', 'reachable_node_bound_all'), ('C10_reachable_node_bound_capacity_free', 'ClosureP', 'reachable_node_bound_capfree'),
+  ('C10_quad_reachable_node_bound', 'QuadP', 'quad_reachable_node_bound'), ('C10_size_packed', 'ClosureP', 'snodes_canon_packed_le'), ('C10_reachable_node_bound', 'ClosureP', 'reachable_node_bound_all'), ('C10_reachable_node_bound_capacity_free', 'ClosureP', 'reachable_node_bound_capfree'),
  ],
  'C11': [
   ('C11_iter_yields', 'IterP', 'iter_yields'), ('C11_iter_from', 'IterP', 'coll_iter_from_spec'),
@@ -109,7 +109,7 @@ TABLE = {
   ('C12_encode', 'CollObsP', 'ssz_encode_spec'), ('C12_bytes_len', 'CollObsP', 'ssz_bytes_len_spec'),
   ('C12_roundtrip', 'CollObsP', 'list_from_ssz_roundtrip'), ('C12_strict', 'CollObsP', 'list_from_ssz_strict_spec'),
   ('C12_vec_roundtrip', 'CollObsP', 'vector_from_ssz_roundtrip'), ('C12_enc_refines', 'RefineB', 'refines_OSszEnc_valid'), ('C12_dec_refines', 'RefineB', 'refines_OSszList'), ('C12_vec_strict', 'CollObsP', 'vector_from_ssz_strict_spec'),
-  ('C12_list_decode_iff', 'SszDetP', 'ssz_list_decode_iff'), ('C12_vec_decode_iff', 'SszDetP', 'ssz_vec_decode_iff'),
+  ('C12_quad_codec', 'QuadP', 'ek_quad_codec'), ('C12_quad_decode_iff', 'QuadP', 'quad_decode_iff'), ('C12_quad_vec_decode_iff', 'QuadP', 'quad_vec_decode_iff'), ('C12_list_decode_iff', 'SszDetP', 'ssz_list_decode_iff'), ('C12_vec_decode_iff', 'SszDetP', 'ssz_vec_decode_iff'),
   ('C12_spec_decode_iff', 'Refine', 'spec_ssz_list_iff'), ('C12_spec_decode_vec_iff', 'Refine', 'spec_ssz_vec_iff'),
   ('C12_serialize_injective', 'RefineB', 'serialize_inj_on'), ('C12_decode_full', 'RefineB', 'list_from_ssz_full'), ('C12_decode_vec_full', 'RefineB', 'vector_from_ssz_full'),
   ('C12_spec_det', 'Refine', 'spec_det'),
@@ -120,7 +120,7 @@ TABLE = {
   ('C13_de_vec', 'CollObsP', 'vector_serde_de_ok'), ('C13_de_vec_wrong_len', 'CollObsP', 'vector_serde_de_fail'), ('C13_ser_refines', 'RefineB', 'refines_OSerdeSer'), ('C13_de_refines', 'RefineB', 'refines_OSerdeList'), ('C13_de_vec_refines', 'RefineB', 'refines_OSerdeVec'), ('C13_de_eq', 'CodecP', 'list_serde_de_eq'),
  ],
  'C14': [
-  ('C14_closed_u64', 'Instances', 'maps_unobservable_u64'), ('C14_closed_nested', 'NestedP', 'maps_unobservable_nl'), ('C14_every_kind_every_pair_of_maps', 'ClosureP', 'maps_unobservable_all'), ('C14_three_maps_agree', 'ClosureP', 'maps_unobservable_three'),
+  ('C14_quad_maps_unobservable', 'QuadP', 'quad_maps_unobservable'), ('C14_closed_u64', 'Instances', 'maps_unobservable_u64'), ('C14_closed_nested', 'NestedP', 'maps_unobservable_nl'), ('C14_every_kind_every_pair_of_maps', 'ClosureP', 'maps_unobservable_all'), ('C14_three_maps_agree', 'ClosureP', 'maps_unobservable_three'),
   ('C14_vecmap_all', 'ClosureP', 'vecmap_lawful_all'), ('C14_btmap_all', 'ClosureP', 'btmap_lawful_all'), ('C14_maxmap_all', 'ClosureP', 'maxmap_vecmap_lawful_all'),
   ('C14_vecmap', 'UMapP', 'vecmap_lawful'), ('C14_btmap', 'UMapP', 'btmap_lawful'), ('C14_maxmap', 'UMapP', 'maxmap_lawful'),
   ('C14_get', 'IfaceP', 'iface_get_spec'), ('C14_len', 'IfaceP', 'iface_len_spec'), ('C14_flush', 'WulP', 'wul_canon'),
@@ -154,7 +154,7 @@ TABLE = {
   ('C17_needs_values_at_level_0', 'BuilderP', 'feed_canon_needs_values_at_level_0'),
   ('C17_hash', 'HashP', 'shash_canon_merkle'), ('C17_one_at_a_time', 'WulP', 'wul1_canon'),
   ('C17_count', 'BuilderP', 'build_canon_count'),
-  ('C17_session', 'BuilderSysP', 'value_session_ok'), ('C17_session_root_is_ssz', 'BuilderSysP', 'value_session_root'),
+  ('C17_quad_session', 'QuadP', 'quad_builder_session'), ('C17_session', 'BuilderSysP', 'value_session_ok'), ('C17_session_root_is_ssz', 'BuilderSysP', 'value_session_root'),
   ('C17_session_full', 'BuilderSysP', 'value_session_full'), ('C17_session_invalid_depth', 'BuilderSysP', 'value_session_invalid_depth'),
   ('C17_new_invalid_depth_any_state', 'BuilderSysP', 'new_invalid_depth_sys'),
   ('C17_session_no_panic', 'BuilderSysP', 'value_session_no_panic'), ('C17_session_reachable', 'BuilderSysP', 'value_session_reachable'),
